@@ -5,6 +5,7 @@ from __future__ import annotations
 import hashlib
 import json
 import os
+import sys
 import time
 from dataclasses import dataclass, field
 from pathlib import Path
@@ -191,18 +192,24 @@ def finish(ctx: Context) -> int:
     out = EVIDENCE_DIR / f"{ctx.prop}.json"
     if os.environ.get("SA_NO_EVIDENCE") != "1":
         out.write_text(json.dumps(evidence, indent=1, default=str))
-    for n in ctx.notes:
-        print(f"NOTE {n}")
-    print(
+    out_lines = [f"NOTE {n}" for n in ctx.notes]
+    out_lines.append(
         f"{ctx.prop} [{ctx.tier}] root={ctx.repo.root} rules={len(ctx.rules)} instances={len(ctx.instances)} "
         f"held={len(ctx.instances) - len(failing)} known={len(matched)} violations={len(seen_keys)} wall={wall:.2f}s"
     )
-    for rid, d in per_rule.items():
-        print(f"  {rid}: {d['held']}/{d['instances']} held -- {d['text']}")
-    for ln in lines:
-        print(ln)
-    for ff in ctx.floor_failures:
-        print(f"{'NOTE' if unknown else 'ANALYSIS-ERROR'} {ctx.prop}: {ff}")
+    out_lines += [f"  {rid}: {d['held']}/{d['instances']} held -- {d['text']}" for rid, d in per_rule.items()]
+    out_lines += lines
+    out_lines += [f"{'NOTE' if unknown else 'ANALYSIS-ERROR'} {ctx.prop}: {ff}" for ff in ctx.floor_failures]
+    try:
+        # the verdict must not depend on who reads the output: a reader that closes the pipe early changes nothing
+        for ln in out_lines:
+            print(ln)
+        sys.stdout.flush()
+    except BrokenPipeError:
+        try:
+            sys.stdout = open(os.devnull, "w")
+        except OSError:
+            pass
     if unknown:
         return 1
     return 2 if ctx.floor_failures else 0
